@@ -822,8 +822,40 @@ class Verifier(Engine):
 
     def ex_For(self, stmt, st):
         outs = []
-        for s, itv in self.ev(stmt.iter, st):
-            itv = self.deref(s, itv)
+        for s, itv0 in self.ev(stmt.iter, st):
+            if isinstance(itv0, VRef) and isinstance(s.heap.get(itv0.ident), dict) and s.heap[itv0.ident].get("__kind__") == "obj" \
+                    and isinstance(stmt.iter, ast.Name) and not stmt.orelse:
+                # `for x in it:` over an object of a class whose __iter__/__next__ are under contract: the iterator protocol,
+                #     it.__iter__()
+                #     while True:
+                #         try: x = it.__next__()
+                #         except StopIteration: break
+                #         <body>
+                # executed through the callee contracts (same loop ordinal, so the loop invariant of the contract applies)
+                cell = s.heap[itv0.ident]
+                tgt = f"{cell.get('__module__')}:{cell.get('__class__')}"
+                if self.cdb.get(tgt + ".__next__") is None or self.cdb.get(tgt + ".__iter__") is None:
+                    raise Unsupported(f"for-loop over {tgt} without __iter__/__next__ contracts")
+                name = stmt.iter.id
+                src = (f"{name}.__iter__()\nwhile True:\n    try:\n        __T__ = {name}.__next__()\n"
+                       f"    except StopIteration:\n        break\n")
+                mod = ast.parse(src)
+                wh = mod.body[1]
+                wh.body[0].body[0].targets = [stmt.target]
+                wh.body += stmt.body
+                ast.copy_location(wh, stmt)
+                ast.fix_missing_locations(mod)
+                for n_ in ast.walk(mod):
+                    if not hasattr(n_, "lineno") or n_.lineno < stmt.lineno:
+                        try:
+                            n_.lineno = stmt.lineno; n_.end_lineno = stmt.lineno; n_.col_offset = 0; n_.end_col_offset = 0
+                        except Exception:
+                            pass
+                self.fr.loop_ordinals[id(wh)] = self.fr.loop_ordinals.get(id(stmt))
+                for s1, sig in self.ex_block(mod.body, s):
+                    outs.append((s1, sig))
+                continue
+            itv = self.deref(s, itv0)
             if isinstance(itv, VTuple):
                 # static tuple: unroll
                 states = [(s, None)]
